@@ -48,6 +48,12 @@ MANIFEST = dict(
 TRUSTED_EXTRA = ["harness/djv_monitors.cpp (full observation, reopen with handles re-obtained by id), harness/djv_wrap.cpp "
                  "(statement kinds), tools/monitors_gen.py (history generator), tools/tr_detect.py (translator)"]
 STATELESS = False
+SELF_TEST = {"recorded": "2026-09-29, scratch worktree of /repo, quick tier seed 1 (not re-run by the check)", "seeded_changes": {
+    "seeded/sv-C10-handle-cache (2.x set_comment keeps the value in the handle)": "caught: observation through held handles differs after close+load",
+    "seeded/sv-C10-neighbour-schema (loaded_schema unassigned on the Database2 path)": "caught: created 2.18.0, load answers 1.6.0",
+    "seeded/sv-C10-variant-marker (1.18.0 desktop loads as os; also killed by the unit-test suite)": "caught: schema-differs",
+    "seeded/sv-C10-open-transaction (2.x set_bpm: BEGIN without COMMIT)": "caught after Hist.sweep: observation differs, Lean closedShape = open",
+    "seeded/sv-refactor-getter-in-scope, seeded/sv-refactor-reorder-writes (behaviour preserving)": "green"}}
 
 MON = ("trace", "autocommit", "fullobs", "tableapi.reads", "reopen", "closeall", "load", "dirsha", "exists")
 
@@ -230,6 +236,28 @@ def shrink_A(schema, hist, k, tag):
     return script_reopen_each(schema, hist[:k])
 
 
+def run_corpus(ctx):
+    """corpus/C10/*.txt: scripts that once showed a violation on a seeded change of /repo (kept as regression inputs):
+    each is replayed first and must satisfy the oracle on the current tree."""
+    d = os.path.join(VERIF, "corpus", ID)
+    res, viol = {}, []
+    if not os.path.isdir(d):
+        return res, viol
+    for f in sorted(x for x in os.listdir(d) if x.endswith(".txt")):
+        txt = open(os.path.join(d, f)).read()
+        head, body = txt.split("----\n", 1)
+        hdr = dict(l.split(": ", 1) for l in head.split("\n") if ": " in l)
+        lines = [l for l in body.split("\n") if l.strip()]
+        ok, text = replay(ctx, hdr, lines)
+        res[f] = "clean" if ok else "violated"
+        if not ok:
+            probs = [l for l in text.split("\n") if l.startswith("PROBLEM")]
+            viol.append({"tag": "corpus", "signature": {"family": "corpus", "op": f, "effect": "violated"},
+                         "header": {"kind": "script", "what": "corpus witness %s: %s" % (f, "; ".join(probs)[:300])},
+                         "body": [l for l in lines if not l.startswith("# ")]})
+    return res, viol
+
+
 def tie(ctx):
     rng = random.Random(ctx.seed * 1000003 + 10)
     thorough = ctx.tier == "thorough"
@@ -252,6 +280,8 @@ def tie(ctx):
             jobs.append(("C", ci, k, script_no_reopen(c["schema"], c["hist"], upto=k)))
     outs = runner.run_harness([j[3] for j in jobs], watchdog=60)
     violations, divergences = [], []
+    corpus_res, corpus_viol = run_corpus(ctx)
+    violations += corpus_viol
     hist_ops, prefix_checked, raw_eq, raw_ne, rejected = {}, {"A": 0, "B": 0, "C": 0}, 0, 0, 0
     shapes = {}          # kinds -> set of (family, op word)
     calls = []           # (case, line, result, kinds, autocommit)
@@ -411,7 +441,7 @@ def tie(ctx):
                 "distinct (presence, schemas, request); non-trivial = the full observation was obtained on both sides",
         "samples": [jobs[0][3][:12] + ["..."], cscripts[0]],
         "histograms": {
-            "schemas": schemas, "histories": len(cases), "history_operations": hist_ops, "calls_that_threw": rejected,
+            "schemas": schemas, "histories": len(cases), "corpus": corpus_res, "history_operations": hist_ops, "calls_that_threw": rejected,
             "mutating_operations_covered(family x op)": len(covered), "mutating_operations_uncovered": uncovered,
             "prefixes_closed_and_loaded": prefix_checked,
             "raw_dump_equal_after_load": raw_eq, "raw_dump_differs_after_load(not an alarm)": raw_ne,
@@ -422,6 +452,7 @@ def tie(ctx):
         },
         "divergences": divergences[:20],
         "violations": vout,
+        "self_test": SELF_TEST,
     }
 
 
